@@ -8,22 +8,22 @@ import (
 
 // ---- K1 -------------------------------------------------------------------------------------------------------
 
-type GoodChain struct{ interceptors []interceptor.Interceptor }
+type GoodK1Chain struct{ interceptors []interceptor.Interceptor }
 
-func (c *GoodChain) BindRTCPWriter(w interceptor.RTCPWriter) interceptor.RTCPWriter {
+func (c *GoodK1Chain) BindRTCPWriter(w interceptor.RTCPWriter) interceptor.RTCPWriter {
 	for _, i := range c.interceptors {
 		w = i.BindRTCPWriter(w)
 	}
 	return w
 }
 
-func (c *GoodChain) UnbindLocalStream(info *interceptor.StreamInfo) {
+func (c *GoodK1Chain) UnbindLocalStream(info *interceptor.StreamInfo) {
 	for _, i := range c.interceptors {
 		i.UnbindLocalStream(info)
 	}
 }
 
-func (c *GoodChain) Close() error {
+func (c *GoodK1Chain) Close() error {
 	var errs []error
 	for _, i := range c.interceptors {
 		errs = append(errs, i.Close())
@@ -110,13 +110,13 @@ func BadK2FlattenFirstOnly(errs []error) error {
 	return multiErrK2(out)
 }
 
-type GoodRegistry struct{ factories []interceptor.Factory }
+type GoodK2Registry struct{ factories []interceptor.Factory }
 
-func NewChain(i []interceptor.Interceptor) *GoodChain { return &GoodChain{interceptors: i} }
+func NewChain(i []interceptor.Interceptor) *GoodK1Chain { return &GoodK1Chain{interceptors: i} }
 
 type fxNoOp struct{ interceptor.NoOp }
 
-func (r *GoodRegistry) Build(id string) (interceptor.Interceptor, error) {
+func (r *GoodK2Registry) Build(id string) (interceptor.Interceptor, error) {
 	if len(r.factories) == 0 {
 		return &fxNoOp{}, nil
 	}
